@@ -5,6 +5,11 @@ Line protocol (numbers are 16-hex IEEE bit patterns unless said otherwise; the i
 engine: checks/c27.py reads parameters / state from mjModel / mjData and compares with act_dot, actuator_force,
 qfrc_actuator of mj_forward):
   ctrl <clampdisabled 0|1> <n> (value limited(0|1) lo hi)*n           -> n values     local control vector
+  dctrl <clampdisabled 0|1> <time> <n> (raw limited(0|1) lo hi delay <interp:int> <nsample:nat> [<cursor:nat> times*nsample values*nsample])*n
+                                                                      -> n values     local control vector, delayed
+                                                                         controls read from their history buffer
+  nextact <dyntype:int> <actlimited 0|1> lo hi dynprm0 h act actdot   -> mj_nextActivation of a SISO actuator's own
+                                                                         activation (offset 0, actnum 1; not DC motor)
   actdot <none|integrator|filter|filterexact|muscle|user> d0 d1 d2 ctrl act        -> act_dot
   force <gain> <bias> <group:int> <disableactuator:nat> input len vel lr0 lr1 acc0 g0..g9 b0..b9 -> unclamped force
         gain ∈ fixed|affine|muscle|user, bias ∈ none|affine|muscle|user
@@ -39,6 +44,28 @@ def parseCtrls : List String → Option (List (Ctrl Float))
       pure ({ value := v, limited := l, lo := lo, hi := hi } :: rest)
   | _ => none
 
+/-- `raw limited lo hi delay interp nsample [cursor times*nsample values*nsample]` repeated -/
+partial def parseCtrlIns : List String → Option (List (CtrlIn Float))
+  | [] => some []
+  | v :: l :: lo :: hi :: dl :: ip :: ns :: r => do
+      let v ← floatOfBits? v; let l ← bit? l; let lo ← floatOfBits? lo; let hi ← floatOfBits? hi
+      let dl ← floatOfBits? dl; let ip ← ip.toInt?; let ns ← ns.toNat?
+      if ns = 0 then
+        let rest ← parseCtrlIns r
+        pure ({ raw := v, limited := l, lo := lo, hi := hi, delay := dl, interp := ip, hist := none } :: rest)
+      else
+        match r with
+        | cur :: r' => do
+          let cur ← cur.toNat?
+          if r'.length < 2 * ns then none
+          let ts ← bits? (r'.take ns)
+          let vs ← bits? ((r'.drop ns).take ns)
+          let rest ← parseCtrlIns (r'.drop (2 * ns))
+          pure ({ raw := v, limited := l, lo := lo, hi := hi, delay := dl, interp := ip,
+                  hist := some { cursor := cur, times := ts, values := vs } } :: rest)
+        | [] => none
+  | _ => none
+
 /-- rows of the sparse moment matrix: `<nnz> (col val)*nnz force` -/
 partial def parseRows (nc : Nat) : Nat → List String → Option (List (List (Fin nc × Float)) × List Float)
   | 0, [] => some ([], [])
@@ -70,6 +97,26 @@ def step (line : String) : String :=
     match bit? cd, n.toNat?, parseCtrls rest with
     | some cd, some n, some cs =>
       if cs.length ≠ n then "bad-op" else " ".intercalate ((ctrlStage cd cs).map fb)
+    | _, _, _ => "bad-op"
+  | "dctrl" :: cd :: tm :: n :: rest =>
+    match bit? cd, floatOfBits? tm, n.toNat?, parseCtrlIns rest with
+    | some cd, some tm, some n, some cs =>
+      if cs.length ≠ n then "bad-op"
+      else match ctrlStageDelayed cd tm cs with
+        | some us => " ".intercalate (us.map fb)
+        | none => "bad-op"
+    | _, _, _, _ => "bad-op"
+  | ["nextact", dt, l, lo, hi, d0, h, a, ad] =>
+    match dt.toInt?, bit? l, bits? [lo, hi, d0, h, a, ad] with
+    | some dt, some l, some [lo, hi, d0, h, a, ad] =>
+      if dt = Gen.RK4.mjDYN_DCMOTOR then "bad-op"
+      else
+        let z : Float := 0.0
+        let p : Integrate.ActSlot Float :=
+          { dyntype := dt, actlimited := l, offset := 0, lo := lo, hi := hi, dynprm0 := d0, dynprm2 := z, dynprm5 := z,
+            dynprm7 := z, dynprm8 := z, gainprm5 := z, biasprm3 := z, biasprm4 := z, biasprm5 := z, velocity := z,
+            actnum := 1 }
+        fb (forceInput true p h a ad)
     | _, _, _ => "bad-op"
   | ["actdot", t, d0, d1, d2, c, a] =>
     match dyn? t, bits? [d0, d1, d2, c, a] with
@@ -114,4 +161,16 @@ def step (line : String) : String :=
     | _, _, _ => "bad-op"
   | _ => "bad-op"
 
-def main : IO Unit := runStateless step
+/-- one line in, one line out, flushed after every line: checks/c27.py keeps ONE driver process for the whole run and
+    feeds the stages of every model interactively (the output of one stage is the input of the next) -/
+partial def serve (hin hout : IO.FS.Stream) : IO Unit := do
+  let line ← hin.getLine
+  if line.isEmpty then
+    hout.flush
+  else
+    hout.putStrLn (step line)
+    hout.flush
+    serve hin hout
+
+def main : IO Unit := do
+  serve (← IO.getStdin) (← IO.getStdout)
